@@ -167,6 +167,17 @@ CLAIMS = {
         technique="must-fact dataflow (history facts, inferred noreturn), tabulation of a pure predicate by constant evaluation "
                   "over the finite byte domain",
         design="5 C17"),
+    "C18": dict(
+        text="Two of the three clauses, structurally: the session count is min(16, 2^(32-netbits) - 3) for every netmask 8..30 "
+             "(init_users' size expressions evaluated for all 23 values), allocation, initialisation loop and return value use it, "
+             "the server only builds the pool with a netmask that passed the 8..30 test and indexes sessions by the returned "
+             "count; every non-negative result of find_user_by_ip, on every path including early returns, names a session for "
+             "which active, authenticated, not disabled, last_pkt + 60 > now and address equality were all established. Not "
+             "decided: that assigned addresses are distinct, in-subnet and never the server's own (network-byte-order string "
+             "arithmetic inside a loop).",
+        technique="constant evaluation of the size expressions over the finite netmask range; must-fact dataflow at every "
+                  "result site of the lookup; loop-bound agreement",
+        design="5 C18"),
 }
 
 NA = {
